@@ -499,7 +499,7 @@ class FLAE:
         W = self._P1Hx(H[0]) + self._P2Hy(H[1]) + self._P3Hz(H[2])          # (eq. 44)
         if method.lower() == 'eig':
             V, D = np.linalg.eig(W)
-            q = D[:, np.argmax(V)]
+            q = D[:, np.argmax(V.real)].real                # W is symmetric: its eigenpairs are real
             return q / np.linalg.norm(q)
         # Polynomial parameters                             (eq. 49)
         t1 = -2*np.trace(H@H.T)
